@@ -20,6 +20,15 @@ extern "C" int verif_seed_hook(void)
 		g_seed_refusals--;
 		return -1;
 	}
+	// every value other than -1 is a seed, zero included: some workers get 0 as the first real answer
+	static int zero_first = -1;
+	if (zero_first < 0)
+		zero_first = ((unsigned)g_hash_seed / 7u) % 3u == 1u;
+	if (zero_first == 1)
+	{
+		zero_first = 2;
+		return 0;
+	}
 	return g_hash_seed;
 }
 #endif
